@@ -74,7 +74,7 @@ def gen_case(seed):
         s = {"kind": kind, "user": who, "pw": pw_kind, "wrong": gen_password(rnd, allow_long=True), "start": rnd.choice([0.0, 0.0, 0.01, 0.2]), "hold": rnd.random() < 0.5}
         if kind == "raw":
             s["verb"] = rnd.choice(["PASS", "pass", "PaSs", "Pass", "pAsS"])
-            s["order"] = rnd.choice(["normal", "normal", "pass-first", "pass-twice", "pass-after-login", "cut-after-pass", "double-space", "pipelined-login", "pass-behind-pasv", "pipelined-then-cut", "user-quit-pass"])
+            s["order"] = rnd.choice(["normal", "normal", "pass-first", "pass-twice", "pass-after-login", "cut-after-pass", "double-space", "pipelined-login", "pass-behind-pasv", "pipelined-then-cut", "user-quit-pass", "pass-unterminated"])
         else:
             s["client_encoding"] = rnd.choice(["utf-8", "utf-8", "latin-1"])
             s["client_socket_timeout"] = rnd.choice([None, None, 0.05, 0.15])
@@ -164,6 +164,21 @@ def run_case(case):
                     await p.connect()
                     order = s["order"]
                     sep = "  " if order == "double-space" else " "
+                    if order == "pass-unterminated":
+                        # the PASS line never gets its CR LF: the peer half-closes (or dies) first
+                        await p.cmd("USER " + s["user"])
+                        p.note("C", s["verb"] + sep + pw + " <no CRLF>")
+                        p.writer.write((s["verb"] + sep + pw).encode(case["server_encoding"], "replace"))
+                        info["logins"] += 1
+                        await asyncio.sleep(0.01)
+                        if s.get("hold"):
+                            p.writer.write_eof()
+                            try:
+                                await p.reply(5.0)
+                            except (PeerGone, ReplyTimeout):
+                                pass
+                        p.close()
+                        return
                     if order in ("pipelined-then-cut", "user-quit-pass"):
                         # the PASS line has been read by the server but is still waiting its turn
                         # when the session ends (peer gone, or a QUIT queued in front of it)
